@@ -41,13 +41,21 @@ pub enum OpKind {
     CNegF,
     /// cube whose derivative closure differentiates a private graph of its own (a nested backward pass inside a pass)
     CNested,
+    /// composite user operation: `Array::op(&[a, b], forward, None)` whose forward closure is written with library
+    /// operators (a * b + a), so the result carries the graph those operators recorded and no derivative of its own
+    CComp,
+    /// user operations whose derivative closures are written with library operators on the recorded operands and the
+    /// adjoint (`&children[1] * delta`): a * b, and the four-operand a * b + c * d
+    CLibMul,
+    CLib4,
 }
 
 impl OpKind {
     pub fn arity(&self) -> usize {
         use OpKind::*;
         match self {
-            Add | Sub | Mul | Div | Axpy(_) | CMul | CMulF | CAdd | Conv { .. } => 2,
+            Add | Sub | Mul | Div | Axpy(_) | CMul | CMulF | CAdd | CComp | CLibMul | Conv { .. } => 2,
+            CLib4 => 4,
             Matmul { c, .. } => {
                 if *c {
                     3
@@ -88,6 +96,9 @@ impl OpKind {
             CMulF => "custom_mul_forced".into(),
             CNegF => "custom_neg_forced".into(),
             CNested => "custom_cube_nested".into(),
+            CComp => "custom_composite".into(),
+            CLibMul => "custom_mul_libderiv".into(),
+            CLib4 => "custom_fma4_libderiv".into(),
         }
     }
     /// operation family without parameters (for histograms)
@@ -120,6 +131,9 @@ impl OpKind {
             CMulF => "custom_mul_forced",
             CNegF => "custom_neg_forced",
             CNested => "custom_cube_nested",
+            CComp => "custom_composite",
+            CLibMul => "custom_mul_libderiv",
+            CLib4 => "custom_fma4_libderiv",
         }
     }
     /// the derivative closure is passed to Array::op even when no operand is tracked
@@ -127,14 +141,14 @@ impl OpKind {
         matches!(self, OpKind::CMulF | OpKind::CNegF)
     }
     pub fn is_custom(&self) -> bool {
-        matches!(self, OpKind::CMul | OpKind::CAdd | OpKind::CNeg | OpKind::CFma | OpKind::CCube | OpKind::CMulF | OpKind::CNegF | OpKind::CNested)
+        matches!(self, OpKind::CMul | OpKind::CAdd | OpKind::CNeg | OpKind::CFma | OpKind::CCube | OpKind::CMulF | OpKind::CNegF | OpKind::CNested | OpKind::CLibMul | OpKind::CLib4)
     }
     /// integer data stays integer (bit-exact in any evaluation order while magnitudes stay below the bound)
     pub fn is_exact(&self) -> bool {
         use OpKind::*;
         match self {
             Add | Sub | Mul | Neg | Relu | Sum(_) | Reshape(_) | Matmul { .. } | Conv { .. } | CMul | CAdd | CNeg
-            | CFma | CCube | CMulF | CNegF | CNested => true,
+            | CFma | CCube | CMulF | CNegF | CNested | CComp | CLibMul | CLib4 => true,
             Scale(s) | Axpy(s) => s.fract() == 0.0,
             _ => false,
         }
@@ -188,6 +202,14 @@ impl OpKind {
                 a[0].zip(a[1], |x, y| x * y)?.zip(a[2], |p, z| p + z)?
             }
             CCube | CNested => a[0].map(|x| x * x * x),
+            CComp => same(a[0], a[1])?.zip(a[1], |x, y| x * y)?.zip(a[0], |p, x| p + x)?,
+            CLibMul => same(a[0], a[1])?.zip(a[1], |x, y| x * y)?,
+            CLib4 => {
+                same(a[0], a[1])?;
+                same(a[0], a[2])?;
+                same(a[0], a[3])?;
+                a[0].zip(a[1], |x, y| x * y)?.zip(&a[2].zip(a[3], |x, y| x * y)?, |p, q| p + q)?
+            }
         })
     }
 
@@ -212,7 +234,11 @@ impl OpKind {
             Reshape(d) => a[0].reshape(d.clone()),
             Matmul { ta, tb, c } => Array::matmul((a[0], *ta), (a[1], *tb), if *c { Some(a[2]) } else { None }),
             Conv { sr, sc } => a[0].conv(a[1], (*sr, *sc)),
-            CMul | CAdd | CNeg | CFma | CCube | CMulF | CNegF | CNested => custom_op(self, a, node_id),
+            CMul | CAdd | CNeg | CFma | CCube | CMulF | CNegF | CNested | CLibMul | CLib4 => custom_op(self, a, node_id),
+            CComp => {
+                let f: ForwardOp = Rc::new(|x: &[&Array]| &(x[0] * x[1]) + x[0]);
+                Array::op(a, f, None)
+            }
         }
     }
 }
@@ -284,7 +310,8 @@ fn custom_op(kind: &OpKind, args: &[&Array], node_id: usize) -> Array {
             assert_eq!(o.dimensions(), x[0].dimensions(), "custom op: operands must have the same shape");
         }
         let v: Vec<Float> = match k {
-            OpKind::CMul | OpKind::CMulF => x[0].values().iter().zip(x[1].values()).map(|(a, b)| a * b).collect(),
+            OpKind::CMul | OpKind::CMulF | OpKind::CLibMul => x[0].values().iter().zip(x[1].values()).map(|(a, b)| a * b).collect(),
+            OpKind::CLib4 => (0..x[0].values().len()).map(|i| x[0].values()[i] * x[1].values()[i] + x[2].values()[i] * x[3].values()[i]).collect(),
             OpKind::CAdd => x[0].values().iter().zip(x[1].values()).map(|(a, b)| a + b).collect(),
             OpKind::CNeg | OpKind::CNegF => x[0].values().iter().map(|a| -a).collect(),
             OpKind::CFma => x[0]
@@ -329,6 +356,13 @@ fn custom_op(kind: &OpKind, args: &[&Array], node_id: usize) -> Array {
                 let g = p.gradient().as_ref().map(|g| g.values().to_vec()).unwrap_or_else(|| vec![0.0 as Float; dv.len()]);
                 vec![mk(g)]
             }
+            OpKind::CLibMul => vec![if t[0] { Some(&c[1] * d) } else { None }, if t[1] { Some(&c[0] * d) } else { None }],
+            OpKind::CLib4 => vec![
+                if t[0] { Some(&c[1] * d) } else { None },
+                if t[1] { Some(&c[0] * d) } else { None },
+                if t[2] { Some(&c[3] * d) } else { None },
+                if t[3] { Some(&c[2] * d) } else { None },
+            ],
             OpKind::CMul | OpKind::CMulF => vec![
                 opt(0, dv.iter().zip(c[1].values()).map(|(a, b)| a * b).collect()),
                 opt(1, dv.iter().zip(c[0].values()).map(|(a, b)| a * b).collect()),
@@ -668,6 +702,10 @@ pub fn expected_gradient_scaled(p: &Program, m: usize, seed: &[f64], root: usize
                 eval_ref::<DA>(p, &|_, d, x| T::from_f64(d, x), Some((m, &f)))?
             };
             scale[j] = run.vals[root].v.iter().zip(seed).map(|(o, sd)| o.a * sd.abs()).sum();
+        } else {
+            // not asked for the path sums: the magnitude of the gradient itself is a lower bound of them (it matters
+            // when this contribution is later added to ones that are compared with tolerance)
+            scale[j] = g[j].abs();
         }
     }
     Some((g, scale))
@@ -679,7 +717,20 @@ pub fn shadow_bound(p: &Program, seed: &[f64], root: usize) -> f64 {
     if !p.is_exact_class() {
         return f64::INFINITY;
     }
-    // all leaves carry tangent 1: an upper bound of every adjoint partial sum (all shadow factors are >= 1)
+    // all leaves carry tangent 1: an upper bound of every adjoint partial sum (all shadow factors are >= 1). Evaluated
+    // on a copy of the program in which everything is tracked: a tangent cut by an untracked use would hide the
+    // adjoints of the interior nodes above the cut, which are formed all the same
+    let mut q = p.clone();
+    for n in q.nodes.iter_mut() {
+        match n {
+            Node::Leaf { tracked, .. } => *tracked = true,
+            Node::Op { post, pre, .. } => {
+                *post = None;
+                pre.clear();
+            }
+        }
+    }
+    let p = &q;
     let run = eval_ref::<Dual<Sh>>(
         p,
         &|_, d, x| {
@@ -705,8 +756,6 @@ pub fn shadow_bound(p: &Program, seed: &[f64], root: usize) -> f64 {
     for (o, s) in run.vals[root].v.iter().zip(seed) {
         g += o.d.0 * s.abs().max(1.0);
     }
-    // tracked flags may have cut tangents in the shadow run; recompute without cuts is unnecessary: cutting only
-    // lowers the true adjoints as well
     m.max(g)
 }
 
@@ -923,6 +972,11 @@ pub fn try_add_op(r: &mut Rng, cfg: &GenCfg, st: &mut GenState) {
         cands.push((OpKind::CNested, vec![a]));
         if samea {
             cands.push((OpKind::CMulF, vec![a, b]));
+            cands.push((OpKind::CLibMul, vec![a, b]));
+            let d4 = pick_operand(r, n);
+            if st.refv[c].dims == da && st.refv[d4].dims == da {
+                cands.push((OpKind::CLib4, vec![a, b, c, d4]));
+            }
         }
         // an alias of a user-defined node (same node, shared slot): built-in `sum(0)`
         if r.chance(1, 3) {
@@ -971,6 +1025,12 @@ pub fn try_add_op(r: &mut Rng, cfg: &GenCfg, st: &mut GenState) {
             cands.push((OpKind::CNested, vec![a]));
             if samea {
                 cands.push((OpKind::CMulF, vec![a, b]));
+                cands.push((OpKind::CComp, vec![a, b]));
+                cands.push((OpKind::CLibMul, vec![a, b]));
+                let d4 = pick_operand(r, n);
+                if st.refv[c].dims == da && st.refv[d4].dims == da {
+                    cands.push((OpKind::CLib4, vec![a, b, c, d4]));
+                }
             }
         }
         if !cfg.exact_only {
@@ -1043,7 +1103,9 @@ pub fn try_add_op(r: &mut Rng, cfg: &GenCfg, st: &mut GenState) {
     if cfg.exact_only {
         // keep shadows small enough that certification usually succeeds
         let sh: f64 = match &kind {
-            OpKind::Mul | OpKind::CMul | OpKind::CMulF => st.shadow[args[0]] * st.shadow[args[1]],
+            OpKind::Mul | OpKind::CMul | OpKind::CMulF | OpKind::CLibMul => st.shadow[args[0]] * st.shadow[args[1]],
+            OpKind::CComp => st.shadow[args[0]] * st.shadow[args[1]] + st.shadow[args[0]],
+            OpKind::CLib4 => st.shadow[args[0]] * st.shadow[args[1]] + st.shadow[args[2]] * st.shadow[args[3]],
             OpKind::CFma => st.shadow[args[0]] * st.shadow[args[1]] + st.shadow[args[2]],
             OpKind::CCube | OpKind::CNested => st.shadow[args[0]].powi(3),
             OpKind::Matmul { .. } | OpKind::Conv { .. } => {
